@@ -59,6 +59,18 @@ def generate(tier, seed):
             lines.append("EVAL (equal `%s %s)" % (txt, cons))
         lines += ["EVAL (setq tpl '`%s) (setq r1 (eval tpl)) (setq r2 (eval tpl)) (list (equal r1 r2) r2)" % txt.replace("(tick", "(progn"),
                   "EVAL (list x l0 l1 l3 tpl)"]
+        if rng.random() < 0.5:
+            # result 1 (and a list nested in it) is extended IN PLACE through the Rust API; the template, the spliced lists, result 2 and
+            # a fresh evaluation must be what they were (results share no cell — not even the terminating nil — with the template or each other)
+            # (literal elements of a template are shared with its results, as in Emacs: only lists the evaluation BUILDS are pushed onto —
+            # the result itself and sub-lists that contain an unquote)
+            idx, nested = 0, []
+            for it in items:
+                if it in ("(d ,x)", "(e ,@l3 f)"): nested.append(idx)
+                idx += {",@l0": 0, ",@l1": 1, ",@l3": 3, ",@(progn (tick 2) l3)": 3}.get(it, 1)
+            if nested:
+                lines.append("PUSHVAR r1 %sa 78" % ("d" * rng.choice(nested)))
+            lines += ["PUSHVAR r1 - 77", "EVAL (list r2 (eval tpl) x l0 l1 l3 tpl)", "PUSHVAR r2 - 79", "EVAL (list (eval tpl) x l0 l1 l3 tpl)"]
         if rng.random() < 0.3:
             # the same template inside a closure that captured x, l1, l3 and is called after the let has exited (the globals
             # of the same names hold other values): every unquoted part, also under quote marks and in the dotted tail,
@@ -89,3 +101,6 @@ def oracle(lines, impl, model, meta):
                 bad.append(("second evaluation of the template differs from the first", [lines[j] for j in idxs], i - idxs[0], a, model[i]))
                 break
     return bad
+
+def ignore_line(l):
+    return False
